@@ -347,7 +347,8 @@ EXPECT = ["C10.cumulant_is_t_times_derivative_of_exponent_at_zero", "C10.exponen
 
 
 def main(tier):
-    bounds = {"cumulants": "HEM, Merton, VG, CGMY (y not in {0,1}) with all parameters symbolic; Taylor order 6 (cumulants 1, 2, 4, 6 of every model)",
+    bounds = {"histories_and_variants": 'exponent before/after 1-2 representation changes (HEM: symbolic real argument; Merton, VG: arguments -i and -i/2); moments also for parameter objects updated in place and re-initialised (one update)',
+              "cumulants": "HEM, Merton, VG, CGMY (y not in {0,1}) with all parameters symbolic; Taylor order 6 (cumulants 1, 2, 4, 6 of every model)",
               "representations": "every sequence of length <= 2 (quick) / 3 (thorough) of the four representations, finite and infinite variation",
               "martingale": "Black-Scholes, HEM, Merton exponential models, all parameters, all t",
               "outside": "equality of the exponent with the Lévy-Khintchine integral away from its Taylor data at 0 (a transcendental integral identity); "
